@@ -38,6 +38,13 @@ func (v *VerifC16Pool) Get(ctx context.Context, t *route.Target) (*grpc.ClientCo
 
 func (v *VerifC16Pool) Set(t *route.Target, c *grpc.ClientConn) { v.p.Set(t, c) }
 
+// SetIfAbsent is the real check-and-set of newConnection on a connection the harness dialled
+// itself: lets the harness place the dial of one caller between the lookup and the store of
+// another (the interleaving of concurrent first calls), deterministically.
+func (v *VerifC16Pool) SetIfAbsent(t *route.Target, c *grpc.ClientConn) *grpc.ClientConn {
+	return v.p.setIfAbsent(t, c)
+}
+
 // Tick starts the real cleanup loop; its first iteration runs at once, the second
 // one a day later.
 func (v *VerifC16Pool) Tick() { go v.p.cleanup() }
